@@ -104,6 +104,27 @@ def subshapes(s):
     return [s] + subshapes(s[0]) + subshapes(s[1])
 
 
+def random_full_shape(rng, leaves):
+    if leaves <= 1:
+        return (None, None)
+    k = rng.randint(1, leaves - 1)
+    return (random_full_shape(rng, k), random_full_shape(rng, leaves - k))
+
+
+def fixed_family(count):
+    """a FIXED family of larger shapes (the same under every seed, a prefix for smaller counts): 11..48 nodes, half of them full
+    binary trees, half with one-child nodes. Being fixed, every (clause, shape) the pinned tree fails on them is listed with the
+    known finding, so these shapes are judged like the exhaustively explored ones."""
+    rng = random.Random(20261003)
+    out = []
+    for k in range(count):
+        if k % 2 == 0:
+            out.append(random_full_shape(rng, rng.randint(6, 24)))
+        else:
+            out.append(random_shape(rng, rng.randint(11, 48)))
+    return out
+
+
 def domain(ctx):
     n = 10
     rng = random.Random(ctx.seed * 29 + 3)
@@ -121,7 +142,10 @@ def domain(ctx):
             cases.append({"shape": s, "cls": "btn", "mult": (1.0, 1.0), "full": True})
     for _ in range(150 if ctx.quick else 3000):
         cases.append({"shape": random_shape(rng, rng.randint(n + 1, 18)), "cls": rng.choice(["btn", "expr"]), "mult": rng.choice(MULTS)})
-    return cases, ("all full binary trees with 11, 13%s nodes; all %d shapes with <= %d nodes as plain nodes (three multiplier pairs up to 5 nodes) and as expression-shaped nodes; seeded random shapes up to 18 nodes; "
+    nfixed = 2500 if ctx.quick else 12000
+    for s in fixed_family(nfixed):
+        cases.append({"shape": s, "cls": "btn", "mult": (1.0, 1.0), "fixed": True})
+    return cases, ("a fixed family of %d larger shapes (11..48 nodes, half full binary trees, half with one-child nodes); " % nfixed) + ("all full binary trees with 11, 13%s nodes; all %d shapes with <= %d nodes as plain nodes (three multiplier pairs up to 5 nodes) and as expression-shaped nodes; seeded random shapes up to 18 nodes; "
                    "first call, second call, fresh mirrored tree" % ("" if ctx.quick else ", 15", len(shapes.shapes_upto(n)), n))
 
 
@@ -164,11 +188,11 @@ def run(ctx, cases=None):
             failing[x] = failing.get(x, 0) + 1
             if x.startswith("drift_"):
                 continue
-            if shapes.size(s) > bound and x in KNOWN_CLAUSES and not (c.get("full") and shapes.size(s) <= 15):
+            if shapes.size(s) > bound and x in KNOWN_CLAUSES and not (c.get("full") and shapes.size(s) <= 15) and not c.get("fixed"):
                 beyond += 1
                 continue
             res.violations.append(Violation("C18|%s|%s" % (x, canon(s)), "layout of %s shape %s x%s: %s" % (c["cls"], canon(s), c["mult"], x),
-                                            {"shape": c["shape"], "cls": c["cls"], "mult": list(c["mult"])}, [x]))
+                                            {"shape": c["shape"], "cls": c["cls"], "mult": list(c["mult"]), "full": bool(c.get("full")), "fixed": bool(c.get("fixed"))}, [x]))
     res.extra["failing_cases_by_clause"] = failing
     res.extra["known_clause_failures_beyond_exhaustive_bound_not_judged"] = beyond
     return res
